@@ -27,19 +27,22 @@ Record frec := mkfrec {
   f_end : Z;                   (* f_end_off *)
   f_cache : bool;
   f_dd_dirty : bool;           (* dirty & DDLIST_DIRTY *)
-  f_end_dirty : bool           (* dirty & FILE_END_DIRTY *)
+  f_end_dirty : bool;          (* dirty & FILE_END_DIRTY *)
+  f_maxref : Z                 (* maxref: the highest reference number seen (uint16) *)
 }.
 
-Definition set_blocks fr bl := mkfrec bl (f_end fr) (f_cache fr) (f_dd_dirty fr) (f_end_dirty fr).
-Definition set_end fr e := mkfrec (f_blocks fr) e (f_cache fr) (f_dd_dirty fr) (f_end_dirty fr).
-Definition set_dd_dirty fr b := mkfrec (f_blocks fr) (f_end fr) (f_cache fr) b (f_end_dirty fr).
-Definition set_end_dirty fr b := mkfrec (f_blocks fr) (f_end fr) (f_cache fr) (f_dd_dirty fr) b.
+Definition set_blocks fr bl := mkfrec bl (f_end fr) (f_cache fr) (f_dd_dirty fr) (f_end_dirty fr) (f_maxref fr).
+Definition set_end fr e := mkfrec (f_blocks fr) e (f_cache fr) (f_dd_dirty fr) (f_end_dirty fr) (f_maxref fr).
+Definition set_dd_dirty fr b := mkfrec (f_blocks fr) (f_end fr) (f_cache fr) b (f_end_dirty fr) (f_maxref fr).
+Definition set_end_dirty fr b := mkfrec (f_blocks fr) (f_end fr) (f_cache fr) (f_dd_dirty fr) b (f_maxref fr).
+Definition set_maxref fr m := mkfrec (f_blocks fr) (f_end fr) (f_cache fr) (f_dd_dirty fr) (f_end_dirty fr) m.
 
 (** HTPstart *)
 Definition load (img : image) (cache : bool) : option frec :=
   match parse_file img with
   | None => None
-  | Some bl => Some (mkfrec (map (fun b => mkmb b false) bl) (old_end bl) cache false false)
+  | Some bl => Some (mkfrec (map (fun b => mkmb b false) bl) (old_end bl) cache false false
+                            (fold_left Z.max (map d_ref (all_dds bl)) 0))
   end.
 
 (** HPgetdiskblock(file_rec, size, moveto): returns (offset, file record, writes) *)
@@ -135,7 +138,7 @@ Definition create_dd (fr : frec) (tag ref : Z) : (nat * nat) * frec * wlog :=
     | None => let '(fr', w) := new_dd_block fr in ((length (f_blocks fr), O), fr', w)
     end in
   let '(fr2, w2) := update_dd fr1 (fst slot) (snd slot) (mkdd tag ref INVALID_OFFSET INVALID_LENGTH) in
-  (slot, fr2, w1 ++ w2).
+  (slot, (if f_maxref fr2 <? ref then set_maxref fr2 ref else fr2), w1 ++ w2).
 
 (** Hstartwrite(tag, ref, len); Hwrite(data) when data is not empty; Hendaccess -- on a NEW tag/ref *)
 Definition op_put (fr : frec) (tag ref len : Z) (data : list Z) : frec * wlog :=
@@ -177,6 +180,56 @@ Definition op_app (fr : frec) (tag ref : Z) (chunks : list (list Z)) : frec * wl
       (fr5, w1 ++ w2 ++ w3 ++ [(off, c)] ++ w5)
   end.
 
+(** Hnewref: the next reference number while maxref < MAX_REF (65535); afterwards the smallest reference number
+    that no descriptor of ANY DD block uses (HTIfind_dd with a wildcard tag walks the whole block list) *)
+Definition all_mem_dds (fr : frec) : list dd := flat_map (fun mb => b_dds (m_blk mb)) (f_blocks fr).
+Definition ref_used (fr : frec) (r : Z) : bool :=
+  existsb (fun d => negb (d_tag d =? DFTAG_NULL) && (d_ref d =? r)) (all_mem_dds fr).
+Fixpoint first_free (fr : frec) (n : nat) (r : Z) : Z :=
+  match n with
+  | O => 0
+  | S k => if ref_used fr r then first_free fr k (r + 1) else r
+  end.
+Definition MAX_REF : Z := 65535.
+Definition newref (fr : frec) : Z * frec :=
+  if f_maxref fr <? MAX_REF then (f_maxref fr + 1, set_maxref fr (f_maxref fr + 1))
+  else (first_free fr (Z.to_nat MAX_REF) 1, fr).
+
+(** Hputelement(tag, Hnewref(), data): the reference number is a uint16 in C, so a value outside 1..65535 cannot
+    come back; the guard stands for that typing *)
+Definition op_putn (fr : frec) (tag len : Z) (data : list Z) : frec * wlog :=
+  let '(ref, fr1) := newref fr in
+  if (0 <? ref) && (ref <? 65536) then op_put fr1 tag ref len data else (fr1, []).
+
+(** Hdeldd(tag, ref) of an existing element: HTPdelete releases nothing on disk (HPfreediskblock is a no-op),
+    turns the descriptor into a NIL one in memory (tag only) and hands it to HTIupdate_dd *)
+Fixpoint find_dd_dds (l : list dd) (tag ref : Z) : option nat :=
+  match l with
+  | [] => None
+  | d :: r => if negb (d_tag d =? DFTAG_NULL) && (basetag (d_tag d) =? basetag tag) && (d_ref d =? ref) then Some O
+              else match find_dd_dds r tag ref with Some i => Some (S i) | None => None end
+  end.
+Fixpoint find_dd (bl : list mblock) (tag ref : Z) : option (nat * nat) :=
+  match bl with
+  | [] => None
+  | b :: r => match find_dd_dds (b_dds (m_blk b)) tag ref with
+              | Some i => Some (O, i)
+              | None => match find_dd r tag ref with Some (bi, i) => Some (S bi, i) | None => None end
+              end
+  end.
+Definition op_del (fr : frec) (tag ref : Z) : frec * wlog :=
+  match find_dd (f_blocks fr) tag ref with
+  | None => (fr, [])
+  | Some (bi, i) =>
+      match nth_error (f_blocks fr) bi with
+      | None => (fr, [])
+      | Some mb => match nth_error (b_dds (m_blk mb)) i with
+                   | None => (fr, [])
+                   | Some d => update_dd fr bi i (mkdd DFTAG_NULL (d_ref d) (d_off d) (d_len d))
+                   end
+      end
+  end.
+
 (** HTPsync: every dirty block, head to tail: header, then the whole DD list *)
 Definition block_writes (b : block) : wlog :=
   [(b_off b, enc_hdr (b_ndds b) (b_next b)); (b_off b + hdr_sz, enc_dds (b_dds b))].
@@ -193,18 +246,22 @@ Definition sync (fr : frec) : frec * wlog :=
     let w1 := if f_dd_dirty fr then sync_blocks (f_blocks fr) else [] in
     let bl := if f_dd_dirty fr then map (fun mb => mkmb (m_blk mb) false) (f_blocks fr) else f_blocks fr in
     let w2 := if f_end_dirty fr then extend_file fr else [] in
-    (mkfrec bl (f_end fr) (f_cache fr) false false, w1 ++ w2)
+    (mkfrec bl (f_end fr) (f_cache fr) false false (f_maxref fr), w1 ++ w2)
   else (fr, []).
 
 (** ---- sessions *)
 Inductive op :=
 | OpPut (tag ref len : Z) (data : list Z)
-| OpApp (tag ref : Z) (chunks : list (list Z)).
+| OpApp (tag ref : Z) (chunks : list (list Z))
+| OpPutNew (tag len : Z) (data : list Z)
+| OpDel (tag ref : Z).
 
 Definition run_op (fr : frec) (o : op) : frec * wlog :=
   match o with
   | OpPut t r l d => op_put fr t r l d
   | OpApp t r c => op_app fr t r c
+  | OpPutNew t l d => op_putn fr t l d
+  | OpDel t r => op_del fr t r
   end.
 
 Fixpoint run_ops (fr : frec) (ops : list op) : frec * wlog :=
@@ -242,4 +299,10 @@ Definition op_ok (o : op) : bool :=
                      (0 <=? l) && (zlen d <=? l) && byte_list_ok d
   | OpApp t r c => (0 <=? t) && (t <? 65536) && negb (t =? DFTAG_NULL) && (0 <=? r) && (r <? 65536) &&
                    forallb (fun x => byte_list_ok x && (0 <? zlen x)) c && negb (length c =? 0)%nat
+  | OpPutNew t l d => (0 <=? t) && (t <? 65536) && negb (t =? DFTAG_NULL) && (0 <=? l) && (zlen d <=? l) && byte_list_ok d
+  | OpDel _ _ => false
   end.
+
+(** the wider class of the first sentence of the property: deletions of old elements are allowed too
+    (delete-then-append, as SDend does with its metadata) *)
+Definition op_ok1 (o : op) : bool := match o with OpDel _ _ => true | _ => op_ok o end.
